@@ -1,4 +1,4 @@
-"""C07 — each unit system is coherent.  Entirely Layer A: exhaustive over 148 consistent units and
+"""C07 — each unit system is coherent.  Layer A: exhaustive over 148 consistent units and
 all reverse lookups, decided by TLC on exact magnitudes (prime-exponent bags)."""
 from .. import common as C, unitsfacts as U
 
@@ -11,6 +11,7 @@ def run(tier):
     cons = [e for e in f if e['e'] == 'Consistent']
     rel = [e for e in f if e['e'] == 'Related']
     impl = [e for e in f if e['e'] == 'ImplCoherent']
+    cnum = [e for e in f if e['e'] == 'CoherenceNum']
     chk.count(evaluations=len(cons) + len(rel) + len(impl), distinct=len(cons) + len(rel) + len(impl))
     chk.cov['rule'] = ('one fact per (unit type, unit system) entry of the forward table read through ConsistentUnit<U>() and the '
                        'Internal map, and one per enumerator for RelatedUnitSystem(); every fact is distinct and non-trivial: TLC '
@@ -21,6 +22,8 @@ def run(tier):
         chk.sample(e)
     chk.layer('A', consistent_entries=len(cons), reverse_lookups=len(rel), implemented_coherence_facts=len(impl), systems=4,
               unit_types=len(out['units']))
+    chk.layer('B', numeric_coherence_events=len(cnum), worst_ulps=max([max(e['ulps_to'], e['ulps_from']) for e in cnum] or [0]),
+              note='the numbers the real conversion routines produce for one consistent unit, in float, double and long double, against the product of the measured base-unit values (exact rational arithmetic); budget 3 ulps per constant involved')
     chk.assumptions += ['spec/atoms.def gives the SI definitions of the unit atoms (hand-written, independent of the code)',
                         'symbols are tokenised outside TLC; an untokenisable symbol is reported as inconclusive, not as a violation']
     return chk.finish()
